@@ -56,6 +56,9 @@ type PInput struct {
 type PHandler struct {
 	Delays []int64 `json:"delays"` // processing time per item, cycled
 	Manual bool    `json:"manual"` // keeps every item until the controller resumes it
+	// Quit (plain engines): after this many items the handler releases what it has and
+	// stops reading the output for good (0: never) - "consumer not reading".
+	Quit int `json:"quit,omitempty"`
 }
 
 // PAction is one step of the controller's script.
@@ -601,6 +604,19 @@ func genPrio(engine, prop string, r *simrt.SplitMix) *PrioSc {
 			for i := range sc.Handlers {
 				if r.Intn(2) == 0 {
 					sc.Handlers[i] = PHandler{Manual: true}
+				}
+			}
+		}
+
+		if sc.plain() && r.Intn(3) == 0 {
+			// the consumer side stops reading while handlers are still free: the
+			// discipline ends up blocked writing to the output
+			for i := range sc.Handlers {
+				sc.Handlers[i].Manual = false
+				sc.Handlers[i].Quit = between(r, 0, 2)
+
+				if i == 0 {
+					sc.Handlers[i].Quit = 1
 				}
 			}
 		}
@@ -1264,6 +1280,13 @@ func buildPrio(sc *PrioSc) (simrt.Config, func()) {
 						}
 
 						simrt.Note("released", int64(it.item), int64(it.prio))
+
+						if hd.Quit > 0 && n+1 >= hd.Quit {
+							simrt.Note("handler-stops-reading", int64(hi), 0)
+							simrt.Recv("env:handler", done)
+
+							return
+						}
 					}
 				})
 			}
